@@ -222,6 +222,13 @@ def announce_vpls(
             flush_events = register_flush_callbacks(peers, reactor, sync_mode)
 
             for route in routes:
+                # as for `announce route`: what cannot be sent is refused here, not when a peer builds its UPDATE
+                error = validate_announce(route)
+                if error:
+                    self.log_failure(f'invalid vpls: {error}')
+                    await reactor.processes.answer_error(service, error)
+                    return
+
                 reactor.configuration.announce_route(peers, route)
                 peer_list = ', '.join(peers) if peers else 'all peers'
                 self.log_message(f'vpls added to {peer_list} : {route.extensive()}')
